@@ -62,6 +62,12 @@ func (o Op) String() string {
 		return fmt.Sprintf("h%d = h%d.Clone()", o.Dst, o.H)
 	case Parse:
 		return fmt.Sprintf("h%d.Parse(text%d)", o.H, o.Arg)
+	case ParseFS:
+		if o.Arg == 1 {
+			return fmt.Sprintf("h%d.ParseFS(TrustedFS{})", o.H)
+		} else if o.Arg == 2 {
+			return fmt.Sprintf("h%d.ParseFS(TrustedFS{}.Sub(x))", o.H)
+		}
 	}
 	return fmt.Sprintf("h%d.%s()", o.H, kindNames[o.Kind])
 }
@@ -178,7 +184,14 @@ func (w *world) apply(o Op) (obs Obs) {
 		_, err := t.ParseGlob("fixtures/hist/*.tmpl")
 		seterr(err)
 	case ParseFS:
-		_, err := t.ParseFS(template.TrustedFSFromTrustedSource(template.TrustedSourceFromConstant("fixtures/hist")), "*.tmpl")
+		tfs := template.TrustedFSFromTrustedSource(template.TrustedSourceFromConstant("fixtures/hist"))
+		switch o.Arg {
+		case 1: // the zero value, which any client can write
+			tfs = template.TrustedFS{}
+		case 2:
+			tfs, _ = template.TrustedFS{}.Sub(template.TrustedSourceFromConstant("x"))
+		}
+		_, err := t.ParseFS(tfs, "*.tmpl")
 		seterr(err)
 	case Templates:
 		var names []string
